@@ -42,10 +42,11 @@ CLAIMS = {
   "obligation proved unreachable for all inputs (or named in a maypanic clause that the caller handles as a language error). Extension calls go through applyExtension whose dyncall contract requires the argument-count/type checks to have passed.",
   "Coverage is the set of functions tagged C07 in the contract files, not the whole interpreter: functions outside it are listed in the evidence as unverified. Assumed stdlib contracts; allocation failure (out of memory) is outside the model except where C09 guards it."),
  "C08": ("proof",
-  "The lexer functions are proved total and memory-safe for every byte string (the same contracts as C16, including NUL and invalid UTF-8), parser.ErrorLine and okParamList are proved against their contracts, "
-  "so 'no input makes the front end panic or loop' is proved for the lexer layer. The Pratt parser's recursion (prefix/infix function tables called through function values) is outside govc's subset; "
-  "it is covered by a bounded stand-in that feeds every token sequence up to a stated length and a corpus of mutated programs through parser+printer, labelled bounded.",
-  "Assumed: function-value dispatch tables of the parser; bounded stand-in is not a proof."),
+  "No input makes the lexer or the parser panic: the lexer functions are proved total and memory-safe for every byte string (the same contracts as C16, including NUL and invalid UTF-8), and every function of parser/parser.go is verified under the parser invariant wfP "
+  "(lexer well formed, current and look-ahead token present, a line-comment token is followed by a newline or the end of input) established by New and preserved by every parse function: no nil dereference, index, nil-map, nil-function-value or type-assertion panic, "
+  "and the explicit panic in parseComment is unreachable (from the lexer's line-comment postcondition). Calls through the three Pratt tables (function values looked up by token type) are verified as calls of ghost stand-ins whose switch is audited on every run to be exactly the table New registers. "
+  "Termination of the parser's recursion and the printer (PrettyPrint) are not proved: the printer is covered by a bounded stand-in that feeds every token sequence up to a stated length and a corpus of mutated programs through parser+printer, labelled bounded.",
+  "Assumed: token tables initialised by token.Init (tablesOK, byTypeOK); every AST node handed to okParamList carries a token (ast.Node.Value contract); New receives a lexer built by the lexer constructors; termination and stack depth of the recursive descent; bounded stand-in is not a proof."),
  "C09": ("proof",
   "The memory guard arithmetic is proved: every allocation site reachable from string/array repetition, concatenation, append and MakeObjectSlice is preceded on all paths by a check that bounds the requested bytes by the ghost memory budget "
   "(guard.alloc obligations generated at each make/append/Repeat), with 64-bit overflow modelled. Two unguarded sites are recorded as known findings.",
